@@ -131,10 +131,114 @@ func Instrs(fn *ssa.Function, f func(ssa.Instruction)) {
 // InstrsDeep calls f for each instruction of fn and of the function literals
 // nested in it.
 func InstrsDeep(fn *ssa.Function, f func(*ssa.Function, ssa.Instruction)) {
+	instrsDeep(fn, f, 0)
+}
+
+func instrsDeep(fn *ssa.Function, f func(*ssa.Function, ssa.Instruction), depth int) {
 	Instrs(fn, func(in ssa.Instruction) { f(fn, in) })
 	for _, a := range fn.AnonFuncs {
-		InstrsDeep(a, f)
+		instrsDeep(a, f, depth)
 	}
+	if depth >= 3 {
+		return
+	}
+	// "virtual closures": unexported functions of the module with exactly one use, a static call from here
+	Instrs(fn, func(in ssa.Instruction) {
+		if g := InlinedAt[in]; g != nil && g != fn {
+			instrsDeep(g, f, depth+1)
+		}
+	})
+}
+
+// InlineSite maps an unexported named function of the module that is used
+// exactly once — by a static call, go or defer — to that instruction;
+// InlinedAt is the inverse. Such a function is what remains of a function
+// literal after a "closure to method/function" clean-up, and the rules treat it
+// like one: InstrsDeep descends into it and ResolveFree maps its parameters to
+// the arguments of its only call. Filled by SetupInline after loading.
+var (
+	InlineSite = map[*ssa.Function]ssa.Instruction{}
+	InlinedAt  = map[ssa.Instruction]*ssa.Function{}
+)
+
+// SetupInline computes InlineSite/InlinedAt for the functions of the module.
+func SetupInline(p *Prog) {
+	InlineSite = map[*ssa.Function]ssa.Instruction{}
+	InlinedAt = map[ssa.Instruction]*ssa.Function{}
+	uses := map[*ssa.Function]int{}
+	var site = map[*ssa.Function]ssa.Instruction{}
+	for _, fn := range p.Funcs {
+		Instrs(fn, func(in ssa.Instruction) {
+			var callee *ssa.Function
+			if cc := CallOf(in); cc != nil {
+				callee = cc.StaticCallee()
+				if mc, ok := cc.Value.(*ssa.MakeClosure); ok {
+					callee, _ = mc.Fn.(*ssa.Function)
+				}
+			}
+			for _, op := range in.Operands(nil) {
+				if op == nil || *op == nil {
+					continue
+				}
+				if g, ok := (*op).(*ssa.Function); ok {
+					uses[g]++
+					if g == callee {
+						site[g] = in
+					} else {
+						uses[g] += 100 // used as a value
+					}
+				}
+			}
+		})
+	}
+	for _, fn := range p.Funcs {
+		if fn.Parent() != nil || fn.Blocks == nil || fn.Object() == nil || fn.Object().Exported() || fn.Pkg == nil || !strings.HasPrefix(fn.Pkg.Pkg.Path(), ModulePath) {
+			continue
+		}
+		if uses[fn] != 1 || site[fn] == nil || site[fn].Parent() == fn {
+			continue
+		}
+		// methods reachable through an interface are used dynamically too
+		if fn.Signature.Recv() != nil && implementsSomeInterfaceMethod(p, fn) {
+			continue
+		}
+		InlineSite[fn] = site[fn]
+		InlinedAt[site[fn]] = fn
+	}
+}
+
+// implementsSomeInterfaceMethod: the method's name is a method of some
+// interface type of the loaded program that its receiver implements (a
+// conservative "may be called dynamically").
+func implementsSomeInterfaceMethod(p *Prog, fn *ssa.Function) bool {
+	recv := fn.Signature.Recv().Type()
+	name := fn.Name()
+	for _, pk := range p.All {
+		if pk.Types == nil {
+			continue
+		}
+		sc := pk.Types.Scope()
+		for _, n := range sc.Names() {
+			tn, ok := sc.Lookup(n).(*types.TypeName)
+			if !ok {
+				continue
+			}
+			it, ok := tn.Type().Underlying().(*types.Interface)
+			if !ok || it.NumMethods() == 0 {
+				continue
+			}
+			has := false
+			for i := 0; i < it.NumMethods(); i++ {
+				if it.Method(i).Name() == name {
+					has = true
+				}
+			}
+			if has && types.Implements(recv, it) {
+				return true
+			}
+		}
+	}
+	return false
 }
 
 // ---------------------------------------------------------------------------
@@ -585,6 +689,25 @@ func ClosureSites(fn *ssa.Function) []*ssa.MakeClosure {
 // (first MakeClosure site); other values are returned unchanged.
 func ResolveFree(v ssa.Value) ssa.Value {
 	for {
+		if par, isPar := v.(*ssa.Parameter); isPar {
+			// a parameter of a "virtual closure" stands for the argument of its only call
+			site := InlineSite[par.Parent()]
+			if site == nil {
+				return v
+			}
+			cc := CallOf(site)
+			idx := -1
+			for i, pp := range par.Parent().Params {
+				if pp == par {
+					idx = i
+				}
+			}
+			if cc == nil || idx < 0 || idx >= len(cc.Args) {
+				return v
+			}
+			v = cc.Args[idx]
+			continue
+		}
 		fv, ok := v.(*ssa.FreeVar)
 		if !ok {
 			return v
